@@ -97,7 +97,11 @@ void bn_mod_barrt(bn_t c, const bn_t a, const bn_t m, const bn_t u) {
 	}
 
 	if (bn_cmp_abs(a, m) == RLC_LT) {
-		bn_copy(c, a);
+		if (bn_sign(a) == RLC_NEG) {
+			bn_add(c, a, m);
+		} else {
+			bn_copy(c, a);
+		}
 		return;
 	}
 
@@ -156,7 +160,7 @@ void bn_mod_barrt(bn_t c, const bn_t a, const bn_t m, const bn_t u) {
 		}
 
 		bn_copy(c, t);
-		if (neg) {
+		if (neg && !bn_is_zero(c)) {
 			bn_sub(c, m, c);
 		}
 	}
